@@ -264,6 +264,31 @@ pub fn sole_matrix() -> Vec<(usize, usize, usize)> {
     matrix().into_iter().filter(|(k, a, _)| is_ctx_kind(*k) || (6..=9).contains(a)).collect()
 }
 
+/// a handler that registers a function and then has a WORKER THREAD (spawned and joined inside the handler)
+/// evaluate a program that calls it: a registration is in effect, for every thread, when register_* returns -
+/// also when it was made inside a running evaluation (handler kinds 0..=5, twice each: worker only / the
+/// handler itself first)
+pub const WORKER_CASES: usize = 12;
+pub fn worker_case(i: usize) -> Case {
+    let k = i % 6;
+    let mut case = Case::new(&format!("worker-thread-inside-handler:{}:{}", KINDS[k], if i >= 6 { "handler-then-worker" } else { "worker-only" }));
+    case.slots.push(CtxSpec { vars: vec![("x".into(), Val::int(1))], funcs: vec![] });
+    let hm = marker(&mut case, HKind::Func);
+    let use_it = |n: i64| Op::Exec { prog: Prog::one(call("nf", vec![lit_i(n)])), ctx: CtxRef::Fresh(CtxSpec::empty()) };
+    let mut actions = vec![Op::RegFn { name: "nf".into(), h: hm }];
+    if i >= 6 {
+        actions.push(use_it(1));
+    }
+    actions.push(Op::OnThread { ops: vec![use_it(2), Op::Parse { prog: Prog::one(call("nf", vec![lit_i(4)])) }] });
+    let h = case.add_handler(HandlerSpec { kind: hkind(k), ret: Ret::Const(Val::int(7)), actions });
+    let node = invoking_node(&mut case, k, h, "hx");
+    let stmts = vec![bin("=", rf("y"), lit_i(5)), bin("=", rf("r"), Expr::List(vec![lit_i(1), node])), rf("r")];
+    case.pre.push(Op::Exec { prog: Prog::Stmts(stmts), ctx: CtxRef::Slot(0) });
+    case.post.push(use_it(3));
+    case.post.push(Op::CtxDump { slot: 0 });
+    case
+}
+
 pub fn matrix_case(k: usize, a: usize, p: usize) -> Case {
     matrix_case_owned(k, a, p, false)
 }
@@ -556,12 +581,12 @@ impl Prop for C14 {
                 "the handler's return value is a constant, so the outer result must equal that of the same program with plain handlers; inner results come from the reference model",
             ],
             fault_kinds: &["reenter_parse", "reenter_execute", "reenter_register", "reenter_ctx_lock", "preempt_in_call", "fresh_process"],
-            probes: &["matrix_cells_run", "nesting_depth_3_or_more", "inner_registration_used_later", "bare_name_locks_own_context", "bystander_registers_during_reentrant_evaluation", "deep_reentrant_chain", "sole_owner_cells_run"],
+            probes: &["matrix_cells_run", "nesting_depth_3_or_more", "inner_registration_used_later", "bare_name_locks_own_context", "bystander_registers_during_reentrant_evaluation", "deep_reentrant_chain", "sole_owner_cells_run", "worker_thread_inside_handler"],
         }
     }
 
     fn n_indices(&self, tier: Tier) -> u64 {
-        (matrix().len() + sole_matrix().len()) as u64 + 20000 * tier.scale()
+(matrix().len() + sole_matrix().len() + WORKER_CASES) as u64 + 20000 * tier.scale()
     }
 
     fn run_index(&self, idx: u64, seed: u64, tier: Tier, rt: &mut Rt) -> Vec<Violation> {
@@ -581,6 +606,9 @@ impl Prop for C14 {
             rt.probe("matrix_cells_run");
             rt.probe("sole_owner_cells_run");
             matrix_case_owned(k, a, p, true)
+        } else if (idx as usize) < cells.len() + sole_matrix().len() + WORKER_CASES {
+            rt.probe("worker_thread_inside_handler");
+            worker_case(idx as usize - cells.len() - sole_matrix().len())
         } else {
             let mut r = Prng::derive(seed, "C14.nested", idx);
             if idx % 64 == 63 {
